@@ -48,9 +48,11 @@ class Contract(object):
 
 class ClassDecl(object):
     """field table of a repository class: attribute name -> type descriptor"""
-    def __init__(self, file, name, fields, bases=(), invariant=None, pyname=None, external=False, stateful=False):
+    def __init__(self, file, name, fields, bases=(), invariant=None, pyname=None, external=False, stateful=False, optional_attrs=(), view_of=None):
         self.file, self.name, self.fields, self.bases = file, name, dict(fields), tuple(bases)
         self.external = external
+        self.view_of = view_of          # this sidecar class is a narrower view of another one (same Python objects): instances of that class may be passed where this one is declared, provided the fields of the view are present
+        self.optional_attrs = set(optional_attrs)   # fields (typed T.Opt) that some instances do not HAVE: reading one raises AttributeError, getattr(o, n, None) gives None
         self.stateful = stateful        # a library object with mutable state: lives in a cell as one term (its abstract state); methods with modifies=['self'] replace it
         self.pyname = pyname or name       # several sidecar views of one Python class may exist (e.g. EAMPotential with a dict of densities)
         self.invariant = invariant      # lambda o(z3 term): [z3 Bool] — established by __init__, fields never reassigned
